@@ -65,7 +65,30 @@ impl Check for C09 {
         o.noncanonical_pct = 0;
         o.raw_pct = *rng.pick(&[0u64, 10]);
         o.pay.max_len = o.pay.max_len.min(16385);
-        let doc = gen::gen_doc(&mut rng, &spec, &o);
+        let mut doc = gen::gen_doc(&mut rng, &spec, &o);
+        if rng.chance(1, 8) {
+            // one element is given a width that cannot hold its size (one less than the narrowest that can): the writer can
+            // only reject that, in every presentation alike; if it accepts, the output is judged like any other
+            let mut plain = doc.clone();
+            for n in plain.iter_mut() {
+                n.visit_mut(&mut |x| x.enc = enc::Enc::default());
+            }
+            let e = enc::encode(&plain);
+            let cands: Vec<(usize, u8)> = e.layout.elems.iter().enumerate().filter_map(|(i, el)| el.size.map(|s| (i, enc::min_size_width(s) as u8 - 1))).filter(|(_, w)| *w >= 1).collect();
+            if !cands.is_empty() {
+                let (target, w) = *rng.pick(&cands);
+                let mut k = 0usize;
+                for n in doc.iter_mut() {
+                    n.visit_mut(&mut |x| {
+                        if k == target {
+                            x.enc.unknown = false;
+                            x.enc.size_w = w;
+                        }
+                        k += 1;
+                    });
+                }
+            }
+        }
         let nv = rng.range(2, 5);
         // raw elements go through write(RawTag) in every presentation of a case, or through write_raw in every one: that
         // the two calls write the same bytes is not among the equivalences C09 states (C01 round-trips both)
@@ -91,6 +114,9 @@ impl Check for C09 {
         let acc0 = accepted(&w0);
         if !acc0 {
             st.inc("reference_presentation_rejected");
+        }
+        if !c.doc.iter().all(enc::encodable) {
+            st.inc("probe_width_too_narrow_for_the_size");
         }
         let mut nontrivial = false;
         for (seed, full, dep, raw, ws) in &c.variants {
@@ -210,7 +236,11 @@ impl Check for C09 {
 
     fn fingerprint(&self, c: &Case) -> u64 {
         let mut f = Fp::default();
-        f.bytes(&enc::encode(&c.doc).bytes);
+        if c.doc.iter().all(enc::encodable) {
+            f.bytes(&enc::encode(&c.doc).bytes);
+        } else {
+            f.bytes(enc::doc_to_j(&c.doc).to_string().as_bytes());
+        }
         for v in &c.variants {
             f.u(v.0).u(v.1).u(v.2).u(v.3);
         }
@@ -260,12 +290,12 @@ impl Check for C09 {
     }
 
     fn rule(&self) -> &'static str {
-        "One case = specification + tag tree with per-element size options (width 1-8 / unknown size) written 3-6 times: the reference presentation (Start/children/End, option-based unknown size, whole writes) and 2-5 drawn presentations (subtrees collapsed into Full incl. nested Full, deprecated write_unknown_size) each through its own short-writing sink; raw elements go through write(RawTag) in all presentations of a case or through write_raw in all of them. Outputs must be byte-identical; in the output every explicit width is the size field's exact length, unknown size is the reserved value, and removing all options changes size fields only (ids and payload bytes compared). Non-trivial: at least one presentation used a Full item. Distinct: FNV-1a fingerprint of the encoded tree + presentation seeds + specification."
+        "One case = specification + tag tree with per-element size options (width 1-8 / unknown size) written 3-6 times: the reference presentation (Start/children/End, option-based unknown size, whole writes) and 2-5 drawn presentations (subtrees collapsed into Full incl. nested Full, deprecated write_unknown_size) each through its own short-writing sink; raw elements go through write(RawTag) in all presentations of a case or through write_raw in all of them. Outputs must be byte-identical; in the output every explicit width is the size field's exact length, unknown size is the reserved value, and removing all options changes size fields only (ids and payload bytes compared). One case in eight gives one element a width one less than the narrowest that holds its size (e.g. 128 bytes under width 1): every presentation must be rejected or accepted alike, and an accepted output is judged as usual. Non-trivial: at least one presentation used a Full item. Distinct: FNV-1a fingerprint of the encoded tree + presentation seeds + specification."
     }
     fn assumptions(&self) -> Vec<&'static str> {
         vec!["sink errors are not injected: the property speaks of partial writes only", "element positions in the output are found by the reference walker (refdec.rs), not by the iterator under test"]
     }
     fn expected_probes(&self) -> Vec<&'static str> {
-        vec!["probe_full_presentation", "probe_deprecated_unknown_call", "probe_write_raw_call", "probe_two_or_more_partial_writes", "probe_unknown_size_written", "probe_width_1", "probe_width_8", "probe_backpatched_master_width"]
+        vec!["probe_full_presentation", "probe_deprecated_unknown_call", "probe_write_raw_call", "probe_two_or_more_partial_writes", "probe_unknown_size_written", "probe_width_1", "probe_width_8", "probe_backpatched_master_width", "probe_width_too_narrow_for_the_size"]
     }
 }
